@@ -120,6 +120,17 @@ class Inconclusive(Exception):
     pass
 
 
+class EnoughCandidates(BaseException):
+    """a case has produced enough unlisted counterexample candidates: further paths/obligations add nothing to the verdict"""
+
+    def __init__(self, rec):
+        super().__init__('enough candidates')
+        self.rec = rec
+
+
+MAX_CANDIDATES_PER_CASE = 8
+
+
 def _atomic_margin_constraint(goal, m):
     """for an atomic relational goal return the constraint 'goal is violated by at least m', else None"""
     if not z3.is_app(goal):
@@ -269,6 +280,12 @@ class Rec:
         goal_n = z3.Not(goal)
         r, s, el = self._check(assume, [goal_n])
         if r == z3.unknown:
+            # nonlinear with discount atoms: look for a counterexample at concrete discount rates first (a `sat` there is a
+            # realistic witness; `unsat` there says nothing about other rates and is not used)
+            pinned = self._sat_with_pinned_atoms(assume, goal_n)
+            if pinned is not None:
+                r, s = z3.sat, pinned
+        if r == z3.unknown:
             # retry once with a fresh non-incremental nlsat/simplex pipeline and a longer budget
             t0 = time.time()
             s = z3.Then('simplify', 'solve-eqs', 'smt').solver()
@@ -307,14 +324,46 @@ class Rec:
             if known is not None:
                 cand['known'] = known
             self.candidates.append(cand)
+            if sum(1 for c in self.candidates if not c.get('known')) >= MAX_CANDIDATES_PER_CASE:
+                self.obligations.append(entry)
+                self.distinct.add(name)
+                self.note('stopped after %d unlisted counterexample candidates (they are replayed; the remaining obligations of this case were not asked)' % MAX_CANDIDATES_PER_CASE)
+                raise EnoughCandidates(self)
         elif r == z3.unknown:
             entry['verdict'] = 'unknown'
+            self.unknowns = getattr(self, 'unknowns', 0) + 1
+            if self.unknowns >= 4:
+                self.obligations.append(entry)
+                raise Inconclusive('4 queries of case %s came back unknown (last: %s); the case is abandoned as inconclusive' % (self.case_id, name))
         self.obligations.append(entry)
         self.distinct.add(name)
         if len(self.samples) < 3:
             self.samples.append(dict(case=self.case_id, obligation=name, form=form, verdict=entry['verdict'],
                                      goal=str(z3.simplify(goal))[:400]))
         return r == z3.unsat
+
+    def _sat_with_pinned_atoms(self, assume, goal_n):
+        from .sym import atom_info, evalf
+        from fractions import Fraction
+        info = atom_info()
+        if not info:
+            return None
+        bases = set()
+        for nm, (b, q) in info.items():
+            bases |= _consts(b)
+        for w in (Fraction(1, 4), Fraction(10, 1)):
+            envw = {c: float(w) for c in bases}
+            pin = [z3.Real(c) == z3.RealVal(str(w)) for c in bases]
+            try:
+                for nm, (b, q) in info.items():
+                    v = float(evalf(b, envw)) ** float(q)
+                    pin.append(z3.Real(nm) == z3.RealVal(str(Fraction(v).limit_denominator(10 ** 12))))
+            except KeyError:
+                return None
+            r, s, _ = self._check(assume, [goal_n] + pin, timeout_ms=20000)
+            if r == z3.sat:
+                return s
+        return None
 
     def _realistic_atoms(self, assume, goal_n, goal):
         from .sym import atom_info, evalf
@@ -349,7 +398,7 @@ class Rec:
         does not come back unsat there is re-decided by prove() on a fresh solver (which also builds the candidate)."""
         t0 = time.time()
         s = z3.Solver()
-        s.set('timeout', self.timeout_ms)
+        s.set('timeout', min(self.timeout_ms, 10000))     # goals not discharged quickly here get their own fresh solver in prove()
         s.add(*assume)
         ok = True
         self.solver_s += time.time() - t0
